@@ -104,3 +104,50 @@ package backend
 //@   requires back != nil
 //@   modifies back.failNum
 //@   ensures[success_resets_consecutive_failures] back.failNum == 0
+
+// ---- C09: a backend is released (its health-check stop channel closed) at most once ----
+// closed(c) is the channel's "closed" bit; closing a closed channel panics, so every Close/Release requires
+// that the backend has not been released before, and a reload may only release what it also drops.
+
+//@ func NewBfeBackend
+//@   props C09
+//@   nopanic nil
+//@   modifies nothing
+//@   ensures[a_new_backend_is_fresh_available_and_not_released] result0 != nil && !allocated(result0) && result0.avail && result0.connNum == 0 && result0.failNum == 0 && result0.succNum == 0 && result0.closeChan != nil && !allocated(result0.closeChan) && !closed(result0.closeChan)
+//@   ensures[and_exists_afterwards] allocatedNow(result0) && allocatedNow(result0.closeChan)
+
+//@ func (*BfeBackend).Close
+//@   props C09
+//@   nopanic nil,close
+//@   requires back != nil
+//@   requires[not_released_before] back.closeChan != nil && !closed(back.closeChan)
+//@   modifies closed(back.closeChan)
+//@   ensures closed(back.closeChan)
+
+//@ func (*BfeBackend).Release
+//@   props C09
+//@   nopanic nil,close
+//@   requires back != nil
+//@   requires[not_released_before] back.closeChan != nil && !closed(back.closeChan)
+//@   modifies closed(back.closeChan)
+//@   ensures closed(back.closeChan)
+
+//@ func (*BfeBackend).GetAddrInfo
+//@   props C09
+//@   nopanic nil
+//@   requires back != nil
+//@   modifies nothing
+//@   ensures result0 == back.AddrInfo
+
+//@ func (*BfeBackend).Init
+//@   props C09
+//@   nopanic nil
+//@   requires back != nil && conf != nil && conf.Name != nil && conf.Addr != nil && conf.Port != nil
+//@   frame Sprintf pure
+//@   modifies back.Name, back.Addr, back.Port, back.AddrInfo, back.SubCluster
+
+//@ func (*BfeBackend).SetRestart
+//@   props C09
+//@   nopanic nil
+//@   requires back != nil
+//@   modifies back.restarted
